@@ -47,8 +47,8 @@ ASSUMPTIONS = [
     "order of all() is not compared (only dict equality and identity of the classes)",
 ]
 BOUNDS = {
-    "quick": {"dfs_len": 5, "hyp_examples": 24000, "hyp_per_shard": 750, "hyp_max_ops": 45},
-    "thorough": {"dfs_len": 6, "hyp_examples": 160000, "hyp_per_shard": 1000, "hyp_max_ops": 45},
+    "quick": {"dfs_len": 5, "dfs_sparse_len": 4, "hyp_examples": 24000, "hyp_per_shard": 750, "hyp_max_ops": 45},
+    "thorough": {"dfs_len": 6, "dfs_sparse_len": 5, "hyp_examples": 160000, "hyp_per_shard": 1000, "hyp_max_ops": 45},
 }
 
 # ---------------------------------------------------------------------------
@@ -271,21 +271,24 @@ def build(rspec, model):
 # oracle
 
 
-def state_errors(m, names, clss):
-    """Compare registry `m.reg` + library with the model through the public read-only API."""
+def state_errors(m, names, clss, use_all=True):
+    """Compare registry `m.reg` + library with the model through the public read-only API.
+    use_all=False: without calling all() (histories in which all() is only called where the history says so, so that
+    an all() whose result depends on when all() was called before is observable)."""
     NotRegistered = _symbols()["NotRegistered"]
     errs = []
     reg = m.reg
     want = {n: clss[c] for n, c in m.d.items()}
-    try:
-        got = reg.all()
-    except Exception as e:  # noqa
-        return [("registry %d: all() raised %r" % (m.idx, e), "all-exc:" + exc_bucket(e))]
-    if not isinstance(got, dict) or got != want or any(got[k] is not want[k] for k in want):
-        errs.append(("registry %d: all() == %r, model %r" % (m.idx, _show(got), _show(want)), "all-differs"))
+    if use_all:
+        try:
+            got = reg.all()
+        except Exception as e:  # noqa
+            return [("registry %d: all() raised %r" % (m.idx, e), "all-exc:" + exc_bucket(e))]
+        if not isinstance(got, dict) or got != want or any(got[k] is not want[k] for k in want):
+            errs.append(("registry %d: all() == %r, model %r" % (m.idx, _show(got), _show(want)), "all-differs"))
     for n in names:
         try:
-            isin = n in reg.all()
+            isin = (n in reg.all()) if use_all else None
         except Exception as e:  # noqa
             errs.append(("registry %d: `%s in all()` raised %r" % (m.idx, n, e), "in-exc:" + exc_bucket(e)))
             isin = None
@@ -379,7 +382,7 @@ class Stats:
         return out
 
 
-def run_ops(regspecs, global_fmt, ops, full_every_step=True):
+def run_ops(regspecs, global_fmt, ops, full_every_step=True, sparse_all=False):
     """Execute a history. Returns (failures, Stats). failures: list[(message, bucket)]."""
     sym = _symbols()
     django_components, all_registries = sym["djc"], sym["all_registries"]
@@ -509,7 +512,7 @@ def run_ops(regspecs, global_fmt, ops, full_every_step=True):
                 st.max_shared = shared
             if full_every_step or i == last:
                 for mm in models:
-                    errs = state_errors(mm, names, clss)
+                    errs = state_errors(mm, names, clss, use_all=(not sparse_all) or i == last)
                     if errs:
                         msg, bk = errs[0]
                         return [("after step %d %s%r on registry %d: %s" % (i, kind, tuple(op[2:]), op[0], "; ".join(e[0] for e in errs[:3])), bk)], st
@@ -526,7 +529,7 @@ def run_ops(regspecs, global_fmt, ops, full_every_step=True):
 
 
 def run_case(case, full_every_step=True):
-    return run_ops(case["regs"], case.get("global_fmt"), [tuple(o) for o in case["ops"]], full_every_step=full_every_step)
+    return run_ops(case["regs"], case.get("global_fmt"), [tuple(o) for o in case["ops"]], full_every_step=full_every_step, sparse_all=bool(case.get("sparse_all")))
 
 
 # ---------------------------------------------------------------------------
@@ -539,6 +542,9 @@ def plan(tier, seed, scale=1.0):
     for ci in range(len(DFS_CONFIGS)):
         for first in range(nops):
             specs.append({"kind": "dfs", "cfg": ci, "first": first, "maxlen": b["dfs_len"]})
+    # the same enumeration with all() as a step of its own and not called by the per-step observation (shorter)
+    for first in range(nops):
+        specs.append({"kind": "dfs", "cfg": 0, "first": first, "maxlen": b["dfs_sparse_len"], "sparse": True})
     n = max(16, int(b["hyp_examples"] * scale))
     # Hypothesis keeps a tree of everything it generated (~0.1 MB per example here): many small shards bound the memory
     nsh = max(16, min(256, n // b["hyp_per_shard"]))
@@ -604,6 +610,8 @@ def _case_strategy(max_ops):
                 "global_fmt": st.one_of(st.none(), fmt),
                 "regs": st.lists(regspec, min_size=nregs, max_size=nregs),
                 "ops": ops,
+                # True: all() is called only where the history has an `all` / `in` step (and after the last step)
+                "sparse_all": st.booleans(),
             }
         )
 
@@ -620,22 +628,23 @@ def run_shard(spec):
     col = Collector()
     kind = spec["kind"]
     if kind == "dfs":
-        ops = dfs_ops()
+        sparse = bool(spec.get("sparse"))
+        ops = dfs_ops() + ([(0, "all")] if sparse else [])
         cname, rspec = DFS_CONFIGS[spec["cfg"]]
         first, maxlen = spec["first"], spec["maxlen"]
         regs = [rspec]
-        lbl_cfg = "dfs:" + cname
+        lbl_cfg = ("dfs_all_as_step:" if sparse else "dfs:") + cname
         for ln in range(1, maxlen + 1):
             for rest in itertools.product(range(len(ops)), repeat=ln - 1):
                 idx = (first,) + rest
                 seq = [ops[i] for i in idx]
-                fails, stt = run_ops(regs, None, seq, full_every_step=True)
+                fails, stt = run_ops(regs, None, seq, full_every_step=True, sparse_all=sparse)
                 nt = stt.shared_removal
                 sample = None
                 if nt or fails:
-                    key = (str(spec["cfg"]) + "".join(_OP_LETTERS[i] for i in idx)).ljust(16, ".") if ln <= 15 else jhash([spec["cfg"], idx])
+                    key = (("S" if sparse else "") + str(spec["cfg"]) + "".join(_OP_LETTERS[i] for i in idx)).ljust(16, ".") if ln <= 14 else jhash([spec["cfg"], idx, sparse])
                     if fails or len(col.nt_samples) < 2:
-                        sample = {"part": "dfs", "config": cname, "global_fmt": None, "regs": regs, "ops": [list(o) for o in seq]}
+                        sample = {"part": "dfs", "config": cname, "global_fmt": None, "regs": regs, "ops": [list(o) for o in seq], "sparse_all": sparse}
                 else:
                     key = None
                 col.case(key, nt, sample=sample if nt else None, labels=[lbl_cfg, "dfs_len_%d" % ln] + stt.labels())
@@ -656,6 +665,8 @@ def run_shard(spec):
             labels += ["hyp:" + _cfg_label(r, case.get("global_fmt")) for r in case["regs"]]
             labels += ["hyp_via:" + r.get("via", "settings") for r in case["regs"]]
             labels += stt.labels()
+            if case.get("sparse_all"):
+                labels.append("hyp_all_only_where_the_history_calls_it")
             if stt.max_shared >= 2:
                 labels.append("two_or_more_surplus_names_on_shared_tags")
             col.case(jhash(case) if nt else None, nt, sample=case if nt else None, labels=labels)
